@@ -46,6 +46,9 @@ def allowList : List Allow := [
            "net-dead: the approving authority chose the path itself (observation O-2 in notes/C15.md)" },
   { file := "lib/lpc/program/binaries.c", fn := "save_binary", callee := "crdir_fopen", root := "prog->name",
     why := "SaveBinaryDir (configuration) + \"/\" + program name; the program name passed legal_path in load_object" },
+  { file := "lib/lpc/program/binaries.c", fn := "save_binary", callee := "fopen", root := "prog->name",
+    why := "the same SaveBinaryDir + \"/\" + program name file that crdir_fopen just wrote, reopened \"rb+\" to append " ++
+           "the checksum over its contents (fix 12ab14c); the program name passed legal_path in load_object" },
   { file := "lib/lpc/program/binaries.c", fn := "load_binary", callee := "check_times",
     root := "DXALLOC (buf_size, TAG_TEMPORARY, \"ALLOC_BUF\")",
     why := "stat () only, of names read from the saved binary being validated: its include files (written by " ++
